@@ -1,19 +1,17 @@
-"""Proof bundle X: C05 for ClockSourceType::Tsc loggers — the TSC -> epoch conversion of backend/RdtscClock.h brought inside
-the model (lean/QuillModel/Tsc/*.lean, Props/C05Tsc.lean, Obligations/Tsc.lean, extraction tools/extractors/tsc.py;
-correspondence stream tools/tsc_stream.py = harness h3_tsc on the real class vs `driver tsc`).
-Proved: monotone between resyncs, the exact effect of a resync (shift by the drift ± 1 ns), per-thread order independent of
-the conversion; witnesses that the code as it is writes decreasing timestamps / inverts two threads across a resync (F38).
-The ordering of TSC statements ACROSS a resync is false of the code as it is: finding F38 (known_findings.json), reported by
-tools/tsc_stream.py as KNOWN-FINDING for exactly that input class."""
+"""Proof bundle X: the unbounded queue inside the backend model (Backend/UQueue.lean, USched.lean, UOps.lean — the machine
+`driver backend trace` runs for the UnboundedBlocking / UnboundedDropping builds of H2). Theorems: Props/C03U.lean over the
+chain lemmas of Backend/UQueueProofs.lean and Backend/UThread.lean. The `_partial` ones are proved for every context state and
+every queue operation of the machine; the induction over `runOpsU` (walk of pollU / exitLoopU) is not done."""
+_T = ["Backend.C03U_conservation", "Backend.C03U_queue_coherent", "Backend.C03U_fresh_state", "Backend.US.runOpsU_closed", "Backend.US.UI.closed",
+      "Backend.C03U_enqueue_keeps", "Backend.C03U_shrink_keeps", "Backend.C03U_read_keeps",
+      "Backend.C03U_offer_means_pending", "Backend.C03U_commit_pop_keep", "Backend.tryEnqU_answer",
+      "Backend.UQ.uRead_spec", "Backend.UQ.uPrepareRead_spec", "Backend.UQ.TI.enq", "Backend.UQ.TI.prepareWrite"]
 THEOREMS = {
-    "C05": ["Tsc.C05Tsc_monotone_between_resyncs", "Tsc.C05Tsc_value_independent_of_reads", "Tsc.C05Tsc_resync_shift",
-            "Tsc.C05Tsc_inversion_bound", "Tsc.C05Tsc_inversion_bound_forward", "Tsc.C05Tsc_gate_needed", "Tsc.C05Tsc_no_inversion_when_behind", "Tsc.C05Tsc_no_inversion_beyond_drift",
-            "Tsc.C05Tsc_exact_scale_ok", "Tsc.C05Tsc_backstep_witness", "Tsc.C05Tsc_inversion_witness",
-            "Tsc.C05Tsc_thread_order_any_conversion", "Tsc.C05Tsc_pop_takes_least_converted",
-            "Obligations.tsc_extraction_complete", "Obligations.tsc_params_are_code", "Obligations.tsc_publication_orders",
-            "Obligations.tsc_default_resync_interval", "Obligations.tsc_structure",
-            "Obligations.C05Tsc_monotone_between_resyncs_extracted", "Obligations.C05Tsc_backstep_witness_extracted"],
+    "C03": _T,
+    "C20": ["Backend.C20U_empty_test_sound_run", "Backend.C20U_empty_test_sound", "Backend.C03U_shrink_keeps", "Backend.UQ.TI.empty_sound"],
+    "C09": ["Backend.C09U_blocked_call_granted_after_drain", "Backend.C09U_drain_publishes", "Backend.qPrepareWrite_drained",
+            "Backend.C09U_parked_call_resumes_partial", "Backend.uPrepareWrite_drained_grants"],
 }
-MODULES = {"C05": ["QuillModel.Props.C05Tsc"]}
-OBLIG = ["QuillModel.Obligations.Tsc"]
-OBLIG_BY_PROP = {"C05": ["QuillModel.Obligations.Tsc"]}
+MODULES = {"C03": ["QuillModel.Props.C03U"], "C20": ["QuillModel.Props.C03U"], "C09": ["QuillModel.Props.C03U", "QuillModel.Props.C09U"]}
+OBLIG = []
+OBLIG_BY_PROP = {}
